@@ -239,9 +239,8 @@ def r5_pop_push(ck, F, R="C06-R5"):
             ed = bool_edges(b, value_site=isome[0])
             ok = ed is not None and b.dominates(ed[1], hp[0].bb) and not b.dominates(ed[2], hp[0].bb)
         ck.ob(R, "pushed-iff-not-exhausted", ok, "pushed back iff move_on_next() returned an entry", b, hp[0])
-        brs = [x for x, c, t in calls(b, "Try>::branch") if any(e.k == "call" and e.x.get("site") == mv[0] for e in b.arg_exprs(x)[0].walk())]
-        errs = [x for x, k, p in err_return_sites(b)]
-        ck.ob(R, "advance-error-propagated", len(brs) == 1 and any(b.dominates(brs[0], e) for e in errs), "an error while advancing a source is returned (the source is not silently dropped)", b, mv[0])
+        from .errflow import propagated
+        ck.ob(R, "advance-error-propagated", propagated(F, b, mv[0]), "an error while advancing a source is returned (the source is not silently dropped)", b, mv[0])
 
 
 def unwrap_field_base(e):
@@ -264,9 +263,9 @@ def stream_loop(ck, R, F, b, tag):
         pk, pv = unwrap_payload(k.a[0], "Some"), unwrap_payload(v.a[0], "Some")
         ok = pk is not None and pv is not None and pk.strip().x.get("site") == nx[0][0] and pv.strip().x.get("site") == nx[0][0]
     ck.ob(R, f"stream-inserts-yielded-pair/{tag}", ok, f"{tag}: writer.insert(key, value) of exactly the pair next() yielded", b, ins[0][0])
+    from .errflow import propagated
     for s, what in ((nx[0][0], "next"), (ins[0][0], "insert")):
-        brs = [x for x, c, t in calls(b, "Try>::branch") if b.arg_exprs(x)[0].k == "call" and b.arg_exprs(x)[0].x.get("site") == s]
-        ck.ob(R, f"stream-error-propagated/{tag}/{what}", len(brs) == 1, f"{tag}: `{what}` is followed by `?`", b, s)
+        ck.ob(R, f"stream-error-propagated/{tag}/{what}", propagated(F, b, s), f"{tag}: the error of `{what}` is propagated", b, s)
     # loop ends only on None
     sw = None
     for bb in sorted(b.normal_blocks()):
